@@ -117,6 +117,9 @@ func TestC02_TruthinessTable(t *testing.T) {
 		{"empty-object", tw.Obj(nil, nil), spec.Map(spec.T(spec.TInt), nil, nil)}, {"object", tw.Obj([]string{"a"}, []*tw.Expr{intLit(0)}), spec.Map(spec.T(spec.TInt), []string{"a"}, []*spec.Value{spec.IntOf(spec.TInt, 0)})},
 		{"nil-pointer", nil, spec.NilPtr(spec.T(spec.TInt))}, {"pointer-to-0", nil, spec.Ptr(spec.IntOf(spec.TInt, 0))}, {"pointer-to-true", nil, spec.Ptr(spec.Bool(true))},
 		{"struct", nil, spec.Struct([]string{"A"}, []*spec.Value{spec.IntOf(spec.TInt, 0)})}, {"uint64-0", nil, spec.IntOf(spec.TUint64, 0)}, {"int64-min", nil, spec.IntOf(spec.TInt64, -1<<63)},
+		{"contains-false", tw.Call(tw.Arr(intLit(1)), "contains", intLit(2)), spec.Bool(false)}, {"contains-true", tw.Call(tw.Str("ab"), "contains", tw.Str("a")), spec.Bool(true)},
+		{"then-nil", tw.Call(tw.Bool(false), "then", intLit(1)), spec.NilAny()}, {"len-zero", tw.Call(tw.Str(""), "len"), spec.IntOf(spec.TInt, 0)},
+		{"not-true", tw.Un(tw.ENot, tw.Bool(true)), spec.Bool(false)}, {"comparison-false", tw.Bin("<", intLit(2), intLit(1)), spec.Bool(false)},
 		{"neg-zero", nil, spec.Float64(negZero())}, {"nil-slice", nil, &spec.Value{T: spec.SliceOf(spec.T(spec.TInt)), Nil: true}}, {"nil-map", nil, &spec.Value{T: spec.MapOf(spec.T(spec.TInt)), Nil: true}},
 	}
 	probes := []struct {
